@@ -171,6 +171,7 @@ func (s *TunnelServiceHandler) openReverseTunnel(stream tunnelpb.TunnelService_O
 		key = s.affinityKey(ch)
 	}
 
+	verifYield("reg.pre.add", verifChanID(ch))
 	s.reverse.add(ch, key)
 	defer s.reverse.remove(ch)
 	verifYield("reg.add.global", verifChanID(ch))
